@@ -418,8 +418,11 @@ def mbox_bytes(raws: list[bytes], eol: bytes, mode: str, rng=None) -> bytes:
     out = b""
     for i, r in enumerate(raws):
         sep = b"From MAILER-DAEMON Thu Jan  %d 0%d:00:00 2024" % (1 + i % 9, i % 10)
-        if rng is not None and rng.random() < 0.5:
-            sep = b"From user%d@example.com  Fri Feb 2%d 12:3%d:56 +0000 20%02d" % (i, i % 9, i % 10, 10 + i % 20)
+        if rng is not None and rng.random() < 0.6:
+            sep = rng.choice([b"From user%d@example.com  Fri Feb 2%d 12:3%d:56 +0000 20%02d" % (i, i % 9, i % 10, 10 + i % 20),
+                              b"From - Mon Jan 0%d 00:00:0%d 2024" % (1 + i % 9, i % 10),                  # Thunderbird
+                              b"From \"quoted local\"@example.com Sat Mar  %d 08:0%d:00 1997" % (1 + i % 9, i % 10),
+                              b"From user%d Tue Apr  2 23:59:59 2030" % i])
         body = escape_from(r.replace(b"\r\n", b"\n"), mode)
         if not body.endswith(b"\n"):
             body += b"\n"
@@ -497,3 +500,55 @@ def tiny_attachment_message(rng):
     if got != atts:
         return None
     return spec, raw
+
+
+# ------------------------------------------------------------------------------------------ generated .msg (OLE compound file)
+MSG_NAMES = ["John Doe", "Bob", "O'Brien", "Doe, John", "Smith; Jane", "Dr. A. Jones", "", "Jane Smith (Sales)"]
+
+
+def msg_file(subject, headers, message_id, body, html, display_to) -> bytes:
+    """A minimal Outlook .msg: root-level property streams only (subject, transport headers, message id, body / HTML,
+    DisplayTo).  Attachments and recipient tables need nested storages, which the CFB writer does not produce."""
+    from props.c08_writers import cfb
+    u = lambda s_: s_.encode("utf-16-le")
+    st = [("__properties_version1.0", b"\0" * 32)]
+    if subject is not None:
+        st.append(("__substg1.0_0037001F", u(subject)))
+    if headers is not None:
+        st.append(("__substg1.0_007D001F", u(headers)))
+    if message_id is not None:
+        st.append(("__substg1.0_1035001F", u(message_id)))
+    if body is not None:
+        st.append(("__substg1.0_1000001F", u(body)))
+    if html is not None:
+        st.append(("__substg1.0_10130102", html.encode("utf-8")))
+    if display_to is not None:
+        st.append(("__substg1.0_0E04001F", u(display_to)))
+    return cfb(st)
+
+
+def gen_msg_spec(rng):
+    sp = gen_spec(rng, None, max_att=0)
+    sp["from"] = (pick(rng, MSG_NAMES), sp["from"][1])
+    sp["cc"] = [(pick(rng, MSG_NAMES), a) for _, a in sp["cc"]]
+    sp["display_to"] = [pick(rng, MSG_NAMES[:3] + ["Jane Smith"]) for _ in range(rng.randrange(0, 3))]
+    sp["no_subject"] = rng.random() < 0.08
+    sp["no_date"] = rng.random() < 0.08
+    sp["no_msgid"] = rng.random() < 0.1
+    style = pick(rng, [None, None, "nozone", "named", "noweekday", "comment"])
+    date_text = style_date(sp, style) or email.utils.format_datetime(sp["date"])
+    lines = ["From: " + email.utils.formataddr(sp["from"])]
+    if sp["cc"]:
+        lines.append("CC: " + ", ".join(email.utils.formataddr(a) for a in sp["cc"]))
+    if not sp["no_date"]:
+        lines.append("Date: " + date_text)
+    else:
+        sp["date"] = None
+    lines.append("X-Mailer: generated")
+    headers = "\r\n".join(lines) + "\r\n\r\n"
+    use_html = sp["layout"] == "html" and sp["html"]
+    raw = msg_file(None if sp["no_subject"] else sp["subject"], headers, None if sp["no_msgid"] else sp["msgid"],
+                   None if use_html else sp["plain"].replace("\n", "\r\n"), sp["html"] if use_html else None,
+                   "; ".join(sp["display_to"]) if sp["display_to"] else None)
+    sp["msg_html"] = bool(use_html)
+    return sp, raw
